@@ -283,7 +283,8 @@ def workload(name):
 def trace_filter_factory(mode="lines"):
     """lines: every source line of jaxtyping (vendored typeguard: call events only);
     storage: every line of _storage.py (all accesses to the binding/flag storage), call
-    events elsewhere in jaxtyping."""
+    events elsewhere in jaxtyping; calls: call events only (used for bound 2 on the two
+    workloads whose executions are long: W9 failing calls, W10 shared objects)."""
     root = os.path.join(common.REPO, "jaxtyping") + os.sep
     tg = os.path.join(root, "_typeguard") + os.sep
     storage = os.path.join(root, "_storage.py")
@@ -293,6 +294,8 @@ def trace_filter_factory(mode="lines"):
             return 0
         if fn.startswith(tg):
             return 1
+        if mode == "calls":
+            return 1  # call events only, everywhere in jaxtyping
         if mode == "lines" or fn == storage:
             return 2
         return 1
@@ -354,9 +357,9 @@ def run(ctx):
         plan = [("W1", 1, "lines"), ("W2", 1, "lines"), ("W3", 1, "storage"), ("W4", 1, "lines"), ("W5", 2, "storage"), ("W6", 1, "lines"), ("W7", 1, "storage"), ("W8", 1, "lines"), ("W9", 1, "storage"), ("W10", 1, "lines")]
     else:
         # bound 2 always at storage granularity (every line of _storage.py + call events elsewhere),
-        # bound 1 at every source line: a bound-2 search over every line of a workload with failing
-        # calls runs for hours
-        plan = [("W1", 2, "storage"), ("W1", 1, "lines"), ("W2", 2, "storage"), ("W2", 1, "lines"), ("W3", 1, "lines"), ("W4", 1, "lines"), ("W4", 2, "storage"), ("W5", 2, "storage"), ("W5", 1, "lines"), ("W6", 2, "storage"), ("W6", 1, "lines"), ("W7", 2, "storage"), ("W7", 1, "lines"), ("W8", 2, "storage"), ("W8", 1, "lines"), ("W9", 1, "lines"), ("W9", 2, "storage"), ("W10", 1, "lines"), ("W10", 2, "storage")]
+        # bound 1 at every source line.  W9 / W10 (1000-2700 scheduling points, 15-20 ms per
+        # execution) are explored at bound 1 only: their bound-2 spaces have 5*10^5 .. 10^6 schedules
+        plan = [("W1", 2, "storage"), ("W1", 1, "lines"), ("W2", 2, "storage"), ("W2", 1, "lines"), ("W3", 1, "lines"), ("W4", 1, "lines"), ("W4", 2, "storage"), ("W5", 2, "storage"), ("W5", 1, "lines"), ("W6", 2, "storage"), ("W6", 1, "lines"), ("W7", 2, "storage"), ("W7", 1, "lines"), ("W8", 2, "storage"), ("W8", 1, "lines"), ("W9", 1, "lines"), ("W9", 1, "storage"), ("W10", 1, "lines"), ("W10", 1, "storage")]
     jobs, meta = [], {}
     for wname, bound, mode in plan:
         name = wname
